@@ -282,3 +282,18 @@ def string_offset_model(ex, st, fr, name, args, dty):
         return ex.uninterp(s2, fr, name, args, dty)
     st.pc.extend(facts)
     return fork(ex, st, fr, cond, 'String::%s: offset is past the end or not a char boundary' % op, cont)
+
+
+@model(r'Iterator>::collect$|FromIterator<.*>>::from_iter$|GenericArray<.*>::(from_slice|from_mut_slice|clone_from_slice)$')
+def generic_array_model(ex, st, fr, name, args, dty):
+    """collecting / converting into a fixed-size GenericArray panics unless the source has exactly N items; the item count of an
+    iterator or slice is not tracked, so the panic is reachable unless the code took a non-panicking route (from_exact_iter,
+    try_from, a checked constructor)"""
+    sn = strip_generics(name)
+    to_array = 'GenericArray' in (dty or '') or sn.startswith('GenericArray') or 'GenericArray' in name.split(' as ')[0]
+    if not to_array:
+        return None
+
+    def cont(s2):
+        return ex.uninterp(s2, fr, name, args, dty)
+    return fork(ex, st, fr, z3.Bool('exact_len!%d' % next(ex.fresh)), 'conversion into a fixed-size GenericArray from a source whose length is not checked (%s)' % sn.split('::')[-1], cont)
